@@ -2,6 +2,7 @@
 import os, sys
 sys.path.insert(0, os.path.dirname(os.path.abspath(__file__)))
 from gen_common import *
+from regdsl import prim, tup, seq, arr, cpt, bits, comp, enum, var, fld
 from oracles.descr import check_description, flatten
 import c01, c02, c15
 
@@ -10,7 +11,7 @@ CRATES = ("description",)
 FUNCTIONS = ["description::{type_description (+ return_type_name, return_type_name_on_cache_hit), ty_description, type_name_with_type_params, type_def_type_description, tuple_type_description, primitive_type_description, variant_type_def_type_description, variant_type_description, fields_type_description, field_type_description}",
              "transformer::Transformer::{new, resolve, types}", "formatting::format_type_description (for the formatted clause)"]
 MODELS = ["RefCell (borrow flags released on MIR drop)", "HashMap<u32, Cached<String>>", "fn-pointer policies", "format!/String/Peekable/slice iterators", "anyhow!", "scale_info::{Path::ident, PortableRegistry::resolve}", "peekmore/SmallVec (formatter)"]
-ASSUMPTIONS = ["registries: corpus registries and, for every field of every item, retargets to every other admissible entry plus Box<Self> and Vec<Self> self references (cyclic graphs through containers and generics), array lengths symbolic",
+ASSUMPTIONS = ["registries: corpus registries, a hand-built registry of generic types whose arguments are 1-tuples / unit / nested tuples / containers of them / compact / bit sequences (each visited twice), and, for every field of every item, retargets to every other admissible entry plus Box<Self> and Vec<Self> self references (cyclic graphs through containers and generics), array lengths symbolic",
                "the oracle is an independent lockstep reader of the description grammar (oracles/descr.py) that walks the registry; a field is boxed iff its recorded type name mentions Box at an identifier boundary",
                "recursion budget: more than 2000 nested interpreter frames counts as non-termination"]
 BOUNDS = {"quick": {"ids": "every id of every corpus registry", "retargets": "<= 4 per field + 2 self references"}, "thorough": {"retargets": "all admissible"}}
@@ -70,9 +71,19 @@ def make_family(name, reg0, ids, mutate=None, symbolic=True):
         return {"outcome": "panic", "violations": [{"what": "type_description panics / does not terminate: %s" % msg, "case": case, "kind": "panic"}]}
     return Family(name, mk, run, target_prefixes=1, on_panic=on_panic, limit=600)    # no corpus family has more than ~150 paths on a correct tree; a cap keeps a check of a broken tree (e.g. one that sorts symbolic indices) from exploding
 
+def tuple_args_registry():
+    """named generic types whose arguments are 1-tuples, the unit tuple, nested tuples and containers of them: the *name*
+    form (type_name_with_type_params) of every shape, also on the second visit of an id"""
+    W = lambda n, p: comp(["m", n], [fld("inner", p, "T")], params=[("T", p)])
+    return [prim("U8"), tup([0]), tup([]), tup([0, 1]), seq(1), arr(2, 1), tup([1]), cpt(0), bits(0, 0),
+            W("W1", 1), W("W0", 2), W("W2", 3), W("WV", 4), W("WA", 5), W("WT", 6), W("WC", 7), W("WB", 8),
+            comp(["m", "Holder"], [fld("a", 9, "W1<(u8,)>"), fld("a2", 9, "W1<(u8,)>"), fld("b", 10, "W0<()>"), fld("c", 11, "W2<(u8,(u8,))>"), fld("d", 12, "WV<Vec<(u8,)>>"),
+                                   fld("e", 13, "WA<[(u8,);2]>"), fld("f", 14, "WT<((u8,),)>"), fld("g", 15, "WC<Compact<u8>>"), fld("h", 16, "WB<BitVec>"), fld("h2", 16, "WB<BitVec>")]),
+            enum(["m", "E"], [var("A", [fld(None, 9, "W1<(u8,)>"), fld(None, 6, "((u8,),)")], 0), var("B", [fld("x", 14, "WT"), fld("y", 14, "WT")], 1)], params=[("T", 6), ("U", 2)])]
 def families(eng, tier, seed):
     C = corpus(); fams = []; rnd = random.Random(seed)
     for n, r in C.items(): fams.append(make_family("corpus-" + n, r, None))
+    fams.append(make_family("names-with-tuple-arguments", tuple_args_registry(), None))
     # closed sub-registries of real chain metadata (concrete)
     P = polkadot(); roots = user_ids(P); rnd2 = random.Random(seed + 3); rnd2.shuffle(roots); k = 0
     for r0 in roots:
